@@ -522,6 +522,32 @@ func checkC12(c c12Case) verdict {
 					return bad(true, labels, "step %d: HexInputToOCRA returns shared memory", i)
 				}
 			}
+			// a decoded key belongs to the caller (who may wipe it after use): overwriting it changes neither what the same
+			// text decodes to next time nor any code computed from the text afterwards
+			for _, text := range []string{c12Secret, "  " + strings.ToLower(c12Secret) + "\n", ref.B32Pad([]byte(st.Text + "key"))} {
+				k1, derr := otp.DecodeSecret(text)
+				if derr != nil {
+					continue
+				}
+				wantK := append([]byte(nil), k1...)
+				for k := range k1 {
+					k1[k] = 0
+				}
+				if full := k1[:cap(k1)]; len(full) > len(k1) {
+					for k := len(k1); k < len(full); k++ {
+						full[k] = canary
+					}
+				}
+				if k2, _ := otp.DecodeSecret(text); !bytes.Equal(k2, wantK) {
+					return bad(true, labels, "step %d: after the caller wiped the key DecodeSecret(%q) had returned, the same text decodes to %x (was %x): the result shares memory with what later calls use", i, text, k2, wantK)
+				}
+				if code, gerr := otp.GenerateHOTP(text, st.U, nil); gerr != nil || code != ref.MustHOTP(wantK, st.U, 6, 0) {
+					return bad(true, labels, "step %d: after the caller wiped the key DecodeSecret(%q) had returned, GenerateHOTP(text, %d) = %q, %v; want %q", i, text, st.U, code, gerr, ref.MustHOTP(wantK, st.U, 6, 0))
+				}
+				if okk, _ := otp.ValidateTOTP(text, ref.MustHOTP(wantK, st.U%(1<<40)/30, 6, 0), time.Unix(int64(st.U%(1<<40)), 0), nil); !okk {
+					return bad(true, labels, "step %d: after the caller wiped the key DecodeSecret(%q) had returned, ValidateTOTP rejects the text's own code", i, text)
+				}
+			}
 		case "padBytes":
 			// direct look at the padding helper through the hook
 			for k, w := range pads {
